@@ -87,6 +87,7 @@ category: Huge
 '''
 C_CSV = '''Pattern,Merchant,Category,Subcategory,Tags
 NETFLIX,NetflixCsv,CsvSubs,CsvStreaming,csv|c
+N.TFLIX,NetTag,,,more|tags
 ^\\d+$,DigitsCsv,CsvDigits,,
 ABC[amount>100],AbcBig,CsvBig,,
 '''
